@@ -33,6 +33,10 @@ fn main() {
     if args.len() >= 3 && args[1] == "--replay" {
         std::process::exit(checks_e1::replay(&args[2]));
     }
+    if args.len() >= 4 && args[1] == "--pair" {
+        purity::print_pair(&args[2], &args[3]);
+        return;
+    }
     if args.len() >= 3 && args[1] == "--digests" {
         purity::print_digests(&args[2]);
         return;
